@@ -102,7 +102,9 @@ def main():
         f = io.split('\t'); want = '1' if spec.canon(a) == spec.canon(b) else '0'
         flags = f[0].replace(' ', '').replace('-', '').replace('~', '')
         pr = []
-        if 'P' in flags: pr.append('a set operation panicked')
+        if len(f) < 2 or 'PANIC' in io:
+            pr.append('hashing / set operations panicked: %s' % io[:120]); f = [f[0], '1']
+        elif 'P' in flags: pr.append('a set operation panicked')
         elif any(ch != want for ch in flags):
             pr.append('HashSet/BTreeSet lookups through Borrow views give %r, expected all %s (inserted %r, looked up %r)' % (f[0], want, a, b))
         if f[1] != '1': pr.append('views of one value (Uri/UriRef/Iri/IriRef, owned/borrowed) hash differently')
@@ -112,14 +114,43 @@ def main():
             if nviol <= 300:
                 R.violation({'kind': 'collections keyed by one view do not find the value through another', 'family': fam, 'inserted': a.decode('utf-8', 'replace'), 'looked_up': b.decode('utf-8', 'replace'),
                              'problems': pr, 'implementation': io[:300], 'replay': "printf '%s\\n' | %s" % (line.replace('\t', '\\t'), harness)}, no_input=False)
+    # every provided cross-type == / partial_cmp between the four views of two absolute values must agree with the
+    # same-type comparison of the two references (and == with the documented equivalence)
+    XNAMES = ['X==&X', 'X==XBuf', 'X==XRef', 'X==&XRef', 'X==XRefBuf', 'XBuf==XRef', 'XBuf==&XRef', 'XBuf==XRefBuf', 'XRef==&XRef', 'XRef==XRefBuf',
+              'XRef==X', 'XRef==&X', 'XRef==XBuf', 'XRefBuf==X', 'XRefBuf==&X', 'XRefBuf==XBuf']
+    xlines = ['xcmp\t%s\t%s\t%s' % (fam, hexs(a), hexs(b)) for fam, a, b in lmeta]
+    xout = run_lines(harness, xlines)
+    nx = 0
+    for (fam, a, b), line, io in zip(lmeta, xlines, xout):
+        if io.startswith('ERR'):
+            continue
+        nx += 1
+        f = io.split('\t'); pr = []
+        if len(f) < 3 or len(f[0]) != 2 or 'P' in io:
+            pr.append('a cross-type comparison panicked or returned nothing: %s' % io[:120])
+        else:
+            want = '1' if spec.canon(a) == spec.canon(b) else '0'
+            if f[0][0] != want: pr.append('XRef == XRef is %s, the documented equivalence says %s' % (f[0][0], want))
+            bad_e = [XNAMES[i] for i, ch in enumerate(f[1]) if ch != f[0][0]]
+            bad_c = [XNAMES[i].replace('==', ' partial_cmp ') for i, ch in enumerate(f[2]) if ch != f[0][1]]
+            if bad_e: pr.append('cross-type == disagrees with the same-type == (%s): %s' % (f[0][0], ', '.join(bad_e)))
+            if bad_c: pr.append('cross-type partial_cmp disagrees with the same-type one (%s): %s' % (f[0][1], ', '.join(bad_c)))
+            if (f[0][0] == '1') != (f[0][1] == 'E'): pr.append('partial_cmp says %s but == says %s' % (f[0][1], f[0][0]))
+        classes.add(('xcmp', fam, io[:2]))
+        if pr:
+            nviol += 1
+            if nviol <= 300:
+                R.violation({'kind': 'cross-type comparison impls disagree with the same-type comparison', 'family': fam, 'a': a.decode('utf-8', 'replace'), 'b': b.decode('utf-8', 'replace'),
+                             'problems': pr, 'implementation': io[:200], 'replay': "printf '%s\\n' | %s" % (line.replace('\t', '\\t'), harness)}, no_input=False)
+    R.extra['cross_type_pairs'] = nx
     if diffs and not R.violations:
         R.violation({'kind': 'correspondence broken: the Eq/Ord/Hash model and the implementation disagree (hash streams are compared token by token), but the coherence laws held on every implementation output',
                      'first': R.extra.get('correspondence_diffs', [])[:3]}, no_input=True)
-    R.cov['evaluations'] = len(cases) + len(llines)
+    R.cov['evaluations'] = len(cases) + len(llines) + len(xlines)
     R.cov['distinct_nontrivial'] = len(classes)
     R.cov['rule'] = ('the pairs of C07 (every comparable type, both families, owned and borrowed): ==, cmp both ways, partial_cmp, the recorded Hasher stream; transitivity on all triples '
                      'of the exhaustive component blocks (%d triples); HashSet/BTreeSet insert + contains through every Borrow impl between library types '
-                     '(UriBuf->Uri/UriRef/Iri/IriRef, UriRefBuf->UriRef, IriBuf->Iri/IriRef, IriRefBuf->IriRef); distinct_nontrivial = distinct (type, eq, cmp)' % ntrip)
+                     '(UriBuf->Uri/UriRef/Iri/IriRef, UriRefBuf->UriRef, IriBuf->Iri/IriRef, IriRefBuf->IriRef); the 16 cross-type == and 16 cross-type partial_cmp impls per family on the same pairs; distinct_nontrivial = distinct (type, eq, cmp)' % ntrip)
     R.cov['samples'] = [{'type': c[0], 'a': c[1].decode('utf-8', 'replace'), 'b': c[2].decode('utf-8', 'replace'), 'out': io[:80].replace('\t', ' ')} for c, io in list(zip(cases, impl))[::max(1, len(cases) // 6)]][:6]
     R.cov['trusted_base'] = R.assumptions
     R.extra.update({'model_vs_impl_differences': diffs, 'triples_checked': ntrip, 'lookups': len(llines), 'tree': os.path.basename(cdir)})
